@@ -576,6 +576,9 @@ func dischargeAll(obls []*Obligation, timeoutS int) {
 			if o.Cover {
 				t = 2 // vacuity guards only need "not provably contradictory"
 				o.Res = Solve(o.Name, o.Query(false), t, false)
+				if o.Discharged() && o.Res.File != "" {
+					os.Remove(o.Res.File)
+				}
 				return
 			}
 			// first the cone of influence of the goal (small query), then everything
